@@ -768,6 +768,9 @@ def check(run):
         for l in open(cp):
             l = l.strip()
             if l and not l.startswith("#"):
+                if l.split()[0] in ("PS", "MS"):
+                    cases.append((l, {"kind": l.split()[0], "tags": ["corpus"], "schema": l.split()[2], "confs": [G.unhx(x) for x in l.split()[3].split("|")]}))
+                    continue
                 cases.append((l, {"kind": l.split()[0], "stream": "corpus", "tag": "corpus", "schema": l.split()[2] if l.split()[0] in ("PF", "PC") else "",
                                   "conf": G.unhx(l.split()[3]) if l.split()[0] == "PF" else b"", "raw": G.unhx(l.split()[1]) if l.split()[0] == "SC" else b"",
                                   "data": b"", "delim": b""}))
@@ -1084,6 +1087,12 @@ def replay(path):
         for f in glob.glob(os.path.join(V.REPO, "tests", "input_files", "*.*")):
             shutil.copy(f, d)
         print(run_scn(unit, d, "replay", scenario(rp["natoms"], rp["positions"], rp["config"].encode("latin1")))[1])
+    elif rp.get("kind") == "sequence":
+        d = V.scratch("C09r")
+        print("--- one module instance:")
+        print(run_scn(unit, d, "replay", rp["scenario"])[1])
+        print("--- fresh module:")
+        print(run_scn(unit, d, "replayf", rp["fresh_scenario"])[1])
     elif rp.get("kind") == "bytes":
         d = V.scratch("C09r")
         for f in glob.glob(os.path.join(V.REPO, "tests", "input_files", "*.*")):
